@@ -223,8 +223,8 @@ impl Stats {
 
 fn truncate_value(v: Value) -> Value {
     let s = v.to_string();
-    if s.len() > 1500 {
-        Value::String(format!("{}… ({} chars)", &s[..1500.min(s.len())].chars().collect::<String>(), s.len()))
+    if s.chars().count() > 1500 {
+        Value::String(format!("{}… ({} bytes of JSON)", s.chars().take(1500).collect::<String>(), s.len()))
     } else {
         v
     }
